@@ -9,7 +9,7 @@ META = {
                   'enspara.cluster.hybrid.hybrid', 'enspara.mpi.ops.striped_array_mean (world size 1)',
                   'enspara.cluster.kcenters.kcenters (reference cost for hybrid)'],
     'bounds': {'quick': 'inductive PAM sweep from an arbitrary consistent state: N<=4,k<=3 (random or explicit proposals); '
-                        'kmedoids/hybrid end-to-end N<=3, 1-2 sweeps',
+                        'kmedoids/hybrid end-to-end N<=3, 1-2 sweeps; cold start with 1-2 random array draws that may repeat frames (N=3)',
                'thorough': 'inductive sweep N<=4 k<=3 (+N=5,k=2); end-to-end N<=4, 2 sweeps'},
     'stubs': ['metric = uninterpreted function D', 'random generators = nondeterministic stub; numpy global generator = '
               'forbidden (its use is reported)', 'np.square opaque (SQ>=0) + exact refinement for counterexamples'],
